@@ -65,6 +65,7 @@ pub const SHAPES: &[(&str, &str)] = &[
     ("casts-ranges", "fn $A() { let $B = $C as *const $T as *mut $U<'static> as usize..=$D as usize; let $E = ..=$F; let a = &mut $B[..]; let b = <$T as $U<'_>>::$D::<{ 1 }>(); let c = <&mut [u8]>::$E(&mut *a, ..); let d = (1,); let e = ((),); let f = (($D,),); }\n"),
     ("jumps", "fn $A() -> u8 { loop { if $B { break; } if $C { continue; } if $D { return 1; } if $E { break 2 } if $F { return 3 } match x { _ => return 4, } } }\nfn g() { return; }\nfn h() { return }\n"),
     ("loop-semis", "fn $A() { loop {}; $B(); while $C {}; '$D: for $E in $F {}; $B(); '$E: loop { break '$E; }; if $C {}; match $C {}; unsafe {}; let x = loop { break 1; }; $B(); loop {}; }\nfn g() { while let Some($D) = $E.pop() {}; }\n"),
+    ("amp-pipes", "fn $A() { let $B = $C & &$D; let $E = $C && $D; let $F = $C | |$B| $B; let a = & &$D; let b = &&$D; let c = $C || $D; let d = $C as &&$T; let e = || $C; let f = $C & & mut $D | |x: &&u8| **x; if $C && &$D == &&$E || $F {} }\n"),
     ("tuples-units", "fn $A($B: (u8,), $C: ((),), $D: (($T,), u8)) -> (u8,) { let ($E,) = $B; let (($F,),): (($T,),) = (($D.0.0,),); $U(($E,)); $U(()); $U((1, 2)); ((($E))); ($E,) }\n"),
     ("types-misc", "fn $A($B: &'static mut dyn for<'a> Fn(&'a u8) -> &'a u8, $C: *const [u8; 2], $D: *mut dyn $T, $E: for<'a, 'b> unsafe extern \"C\" fn(&'a u8, &'b mut u8) -> &'a u8, $F: impl ?Sized + for<'a> $U<'a>, g: [(); 0], h: !, i: <$T as $U<'static>>::X, j: &'_ mut (dyn $T + '_)) {}\n"),
     ("dyn-star", "fn $A($B: dyn* $T + Send, $C: &dyn* $U<'static>) -> dyn* $T { $B as dyn* $T }\n"),
